@@ -93,6 +93,18 @@ def run(ctx):
             ctx.check(any(x[0] == "arg" and x[1] == 1 and x[2] for x in ro), "R10.2", key + "#drains-own-storage", loc(b, c.bb), "drain is not applied to the aggregator's own storage")
         nx = [c for c in b.calls() if c.is_trait_method("Iterator", "next") and c.bb in b.reachable_after(c.bb)]
         aps = [c for c in b.calls() if c.is_trait_method("EntrySink", "append")]
+        fe = [c for c in b.calls() if c.name in ("for_each", "try_for_each") and any(("call", d.bb) in pr.operand(c.args[0]) or ("via", d.bb) in pr.operand(c.args[0]) for d in dr)]
+        if not nx and fe:
+            # iterator-adapter form: the closure is invoked once per drained item
+            okf = False
+            for c in fe:
+                for cb in closure_args(F, c):
+                    caps = [x for x in cb.calls() if x.is_trait_method("EntrySink", "append")]
+                    cl = [x for x in cb.calls() if x.name == "close"]
+                    ok1, why1 = exactly_once(cb, [x.bb for x in caps])
+                    okf = okf or (ok1 and len(cl) >= 2)
+            ctx.check(okf, "R10.2", key + "#per-item-append", loc(b), "the per-item closure of the drain does not append exactly one result built from the closed key and aggregate")
+            continue
         ctx.check(len(nx) == 1 and len(aps) >= 1, "R10.2", key + "#drain-loop", loc(b), "expected one drain loop with an append (next=%d append=%d)" % (len(nx), len(aps)))
         if len(nx) == 1 and aps:
             n = nx[0]
